@@ -402,7 +402,7 @@ def dump_one(f: TextIO, data: IOData):
             shells.append(Shell(shell.icenter, [angmom], [kind], [exponent], [[coeff]]))
     # make a new instance of MolecularBasis with de-contracted basis shells; ideally for WFX we
     # want the primitive basis set, but IOData only supports shells.
-    obasis = MolecularBasis(shells, data.obasis.conventions, data.obasis.primitive_normalization)
+    obasis = MolecularBasis(shells, CONVENTIONS, data.obasis.primitive_normalization)
 
     # expand mo.coeffs in de-contracted basis primitives
     # --------------------------------------------------
